@@ -589,8 +589,13 @@ pub trait Scope {
         None
     }
 }
+pub const MAGIC_CONTEXT: &str = "__tera_context";
 impl Scope for Ctx {
     fn get(&self, name: &str) -> MVal {
+        if name == MAGIC_CONTEXT {
+            // the magic variable dumps the whole context as a map
+            return MVal::Map(self.iter().map(|(k, v)| (MKey::Str(k.clone()), v.clone())).collect());
+        }
         BTreeMap::get(self, name).cloned().unwrap_or(MVal::Undefined)
     }
 }
